@@ -365,7 +365,8 @@ type elemLink struct{ elem, cont string }
 func (a *cbAnalysis) run(body *ast.BlockStmt, argsObj types.Object, extraEntry []Fact, extraRooted map[string]string, where string) {
 	info := a.info
 	impl := a.mode == "Impl"
-	rooted := map[string]string{} // subject key → description
+	rooted := map[string]string{}           // subject key → description
+	rootParams := map[string][]*paramInfo{} // directly rooted subject → the parameters it can stand for
 	for k, v := range extraRooted {
 		rooted[k] = v
 	}
@@ -454,9 +455,11 @@ func (a *cbAnalysis) run(body *ast.BlockStmt, argsObj types.Object, extraEntry [
 							if ci, ok := constInt(info, x.Index); ok && a.spec.param(int(ci)+from) != nil {
 								p := a.spec.param(int(ci) + from)
 								rooted[k] = fmt.Sprintf("args[%d] (parameter %q)", int(ci)+from, p.Name)
+								rootParams[k] = []*paramInfo{p}
 								entry = append(entry, guarantees(p, k, impl)...)
 							} else {
 								rooted[k] = "args[" + exprStr(x.Index) + "+…] (any parameter)"
+								rootParams[k] = a.spec.covered(from)
 								invariants = append(invariants, weakest(a.spec.covered(from), k, impl)...)
 							}
 						}
@@ -476,6 +479,7 @@ func (a *cbAnalysis) run(body *ast.BlockStmt, argsObj types.Object, extraEntry [
 					}
 					if _, seen := rooted[k]; !seen {
 						rooted[k] = fmt.Sprintf("args[%d] (parameter %q)", ci, p.Name)
+						rootParams[k] = []*paramInfo{p}
 						entry = append(entry, guarantees(p, k, impl)...)
 						if dk := declKind(p); dk != "" {
 							structural[k] = true
@@ -483,6 +487,7 @@ func (a *cbAnalysis) run(body *ast.BlockStmt, argsObj types.Object, extraEntry [
 					}
 				} else if _, seen := rooted[k]; !seen {
 					rooted[k] = "args[" + exprStr(x.Index) + "] (any parameter)"
+					rootParams[k] = a.spec.covered(0)
 					invariants = append(invariants, weakest(a.spec.covered(0), k, impl)...)
 				}
 			}
@@ -491,6 +496,7 @@ func (a *cbAnalysis) run(body *ast.BlockStmt, argsObj types.Object, extraEntry [
 				if o := objOf(info, x.Value); o != nil {
 					k := objKey(o)
 					rooted[k] = "element of args (any parameter)"
+					rootParams[k] = a.spec.covered(from)
 					rangeAsserts[o] = weakest(a.spec.covered(from), k, impl)
 				}
 			}
@@ -754,6 +760,9 @@ func (a *cbAnalysis) run(body *ast.BlockStmt, argsObj types.Object, extraEntry [
 					if d, ok := rooted[sk]; ok {
 						desc = d
 						aliasLinks[k] = append(aliasLinks[k], sk)
+						if ps, ok := rootParams[sk]; ok {
+							rootParams[k] = ps
+						}
 					} else {
 						all = false
 					}
@@ -929,6 +938,9 @@ func (a *cbAnalysis) run(body *ast.BlockStmt, argsObj types.Object, extraEntry [
 		return r
 	}
 
+	if argsObj != nil {
+		a.typeAccessorKinds(body, rootParams, where)
+	}
 	// pass 3: check accessor calls; recurse into ForEachElement callbacks
 	inspectNoLit(body, func(n ast.Node) bool {
 		call, ok := n.(*ast.CallExpr)
@@ -1021,6 +1033,191 @@ func (a *cbAnalysis) run(body *ast.BlockStmt, argsObj types.Object, extraEntry [
 	})
 }
 
+// declaredKind: the kind a Parameter's Type expression guarantees ("" = any type / not evident).
+func declaredKind(info *types.Info, p *paramInfo) string {
+	if p == nil || p.TypeExpr == nil {
+		return ""
+	}
+	if k := kindOfTypeExpr(info, p.TypeExpr); k != "" {
+		if k == "Dynamic" {
+			return ""
+		}
+		return k
+	}
+	if call, ok := ast.Unparen(p.TypeExpr).(*ast.CallExpr); ok {
+		switch funcKey(callee(info, call)) {
+		case "cty.List":
+			return "List"
+		case "cty.Set":
+			return "Set"
+		case "cty.Map":
+			return "Map"
+		case "cty.Tuple":
+			return "Tuple"
+		case "cty.Object", "cty.ObjectWithOptionalAttrs":
+			return "Object"
+		}
+	}
+	return ""
+}
+
+// typeAccessorKinds: kind-specific accessors of cty.Type called on the type of an argument.
+func (a *cbAnalysis) typeAccessorKinds(body *ast.BlockStmt, rootParams map[string][]*paramInfo, where string) {
+	info := a.info
+	// type subjects: <rooted value>.ty and single-assignment aliases of it
+	tyBase := map[string]string{} // type subject key → rooted value subject
+	for k := range rootParams {
+		tyBase[k+".ty"] = k
+	}
+	canon := map[string]string{}
+	inspectNoLit(body, func(n ast.Node) bool {
+		as, ok := n.(*ast.AssignStmt)
+		if !ok || len(as.Lhs) != 1 || len(as.Rhs) != 1 || !isCtyType(info.TypeOf(as.Rhs[0])) {
+			return true
+		}
+		lo := objOf(info, as.Lhs[0])
+		from := subjKey(info, as.Rhs[0])
+		if lo == nil || from == "" || countAssigns(info, body, lo) > 0 {
+			return true
+		}
+		if _, ok := tyBase[from]; ok {
+			canon[objKey(lo)] = from
+		}
+		return true
+	})
+	cz := func(k string) string {
+		if to, ok := canon[k]; ok {
+			return to
+		}
+		return k
+	}
+	base := valueFacts(info, body)
+	spec := &FactSpec{
+		Atom: func(cond ast.Expr, truth bool) []Fact {
+			fs := base.Atom(cond, truth)
+			for i := range fs {
+				fs[i].Subj = cz(fs[i].Subj)
+			}
+			return fs
+		},
+		Effects: func(n ast.Node) []Effect {
+			var out []Effect
+			for _, e := range base.Effects(n) {
+				if e.CopyTo != "" {
+					e.CopyFrom, e.CopyTo = cz(e.CopyFrom), cz(e.CopyTo)
+					if e.CopyFrom == e.CopyTo {
+						continue
+					}
+				}
+				out = append(out, e)
+			}
+			return out
+		},
+	}
+	g := a.c.CFG(body, info)
+	runs := map[string]*WorldResult{}
+	inspectNoLit(body, func(n ast.Node) bool {
+		call, ok := n.(*ast.CallExpr)
+		if !ok {
+			return true
+		}
+		fk := funcKey(callee(info, call))
+		allowed, isAcc := typeREQ[fk]
+		if !isAcc {
+			return true
+		}
+		se, ok := call.Fun.(*ast.SelectorExpr)
+		if !ok {
+			return true
+		}
+		tk := cz(subjKey(info, se.X))
+		vk, ok := tyBase[tk]
+		if !ok {
+			return true
+		}
+		ps := rootParams[vk]
+		impl := a.mode == "Impl"
+		dynPossible, anyType := false, false
+		var decl []string
+		for _, p := range ps {
+			if p.AllowDynamicType && (!impl || p.AllowUnknown) {
+				dynPossible = true
+			}
+			dk := declaredKind(info, p)
+			if dk == "" {
+				anyType = true
+			} else {
+				decl = append(decl, dk)
+			}
+		}
+		acc := strings.TrimPrefix(fk, "cty.Type.")
+		construct := fmt.Sprintf("%s.%s/%s(%s)/kind", a.spec.Pkg, where, acc, displaySubj(tk))
+		wr, ok := runs[tk]
+		if !ok {
+			var entry []Fact
+			if !dynPossible {
+				entry = append(entry, Fact{"kind!=Dynamic", tk})
+			}
+			wr = g.WorldsFocused(spec, []Fact{{"kind=Dynamic", tk}}, entry, []string{tk})
+			runs[tk] = wr
+		}
+		ws, reach := wr.at(call)
+		ob := stdObl{Bit: "kind", Construct: construct, Pos: call.Pos(), Mode: a.mode}
+		inAllowed := func(k string) bool {
+			for _, x := range expandKind(k) {
+				for _, al := range allowed {
+					if al == x {
+						return true
+					}
+				}
+			}
+			return false
+		}
+		switch {
+		case !reach || len(ws) == 0:
+			ob.Status, ob.Detail = "discharged", "unreachable under the function's own guards"
+		default:
+			bad := ""
+			for w := range ws {
+				if v, tracked := wr.get(w, atomID{"kind=Dynamic", tk}); tracked && v && dynPossible {
+					bad = "the dynamic pseudo-type (the parameter is declared AllowDynamicType, so cty.DynamicVal is passed to this callback)"
+				}
+			}
+			if bad == "" && !impl && anyType {
+				// a type callback of a parameter declared with the dynamic pseudo-type sees arguments of every type
+				for w := range ws {
+					some := false
+					for _, at := range wr.atoms {
+						if at.Subj == tk && strings.HasPrefix(at.Dim, "kind=") {
+							if v, _ := wr.get(w, at); v && inAllowed(strings.TrimPrefix(at.Dim, "kind=")) {
+								some = true
+							}
+						}
+					}
+					if !some {
+						bad = "a type outside " + strings.Join(allowed, "/") + " (the parameter accepts any type and no guard on the way narrows it)"
+					}
+				}
+			}
+			if bad == "" && len(decl) > 0 && !anyType {
+				for _, dk := range decl {
+					if !inAllowed(dk) {
+						bad = "the declared " + dk + " type"
+					}
+				}
+			}
+			if bad != "" {
+				ob.Status = "violation"
+				ob.Detail = fmt.Sprintf("%s() is defined for %s types only, but the argument's type can be %s here: the callback panics instead of returning an error or a placeholder type", acc, strings.Join(allowed, "/"), bad)
+			} else {
+				ob.Status, ob.Detail = "discharged", fmt.Sprintf("declared kind(s) %v, dynamic possible: %v; every state reaching the call is in %s", decl, dynPossible, strings.Join(allowed, "/"))
+			}
+		}
+		a.res.Obls = append(a.res.Obls, ob)
+		return true
+	})
+}
+
 func badWord(bit string) string {
 	switch bit {
 	case "known":
@@ -1069,6 +1266,11 @@ func init() {
 		ID: "C04.stdlib-mark-tolerance", Prop: "C04", Also: []string{"C11"}, Floor: 30, Controls: 1,
 		Doc: "for a parameter declared AllowMarked neither callback calls a mark-intolerant accessor on the argument or on an element of it before Unmark / UnmarkDeep (such an accessor panics only in the marked run, so marking would change the outcome)",
 		Run: func(rr *RuleRun) { runStdlibBit(rr, "unmarked") },
+	})
+	register(&Rule{
+		ID: "C11.type-accessor-kinds", Prop: "C11", Also: []string{"C12"}, Floor: 15, Controls: 1,
+		Doc: "in the callbacks of a standard function a kind-specific accessor of cty.Type (ElementType, AttributeTypes, TupleElementTypes, ...) is called on the type of an argument only where that type is known to be of the right kind: not for cty.DynamicVal when the parameter is declared AllowDynamicType, and in a type callback of an any-type parameter only under a guard that narrows the kind",
+		Run: func(rr *RuleRun) { runStdlibBit(rr, "kind") },
 	})
 	register(&Rule{
 		ID: "C11.req-table", Prop: "C11", Also: []string{"C12", "C04"}, Floor: 10,
